@@ -26,7 +26,10 @@ ASSUMPTIONS = [
 TRUSTED = ["executable MD5 in Lean (locators of flushed blocks), compared with Go crypto/md5 through the shapes",
            "the in-memory Keep stub of the Go driver (ReadAt/PutB/LocalLocator)"]
 
-DRIVERS = {"fs": {"kind": "gotest", "pkg": "sdk/go/arvados", "test": "TestVerifC08", "min_chunk": 20}}
+# isolate: a shard that hangs or crashes (e.g. a Rename that creates a directory cycle makes the next
+# ancestor walk spin) is re-run case by case, so the culprit becomes a per-case "CRASH" result
+DRIVERS = {"fs": {"kind": "gotest", "pkg": "sdk/go/arvados", "test": "TestVerifC08", "min_chunk": 20,
+                  "isolate": True, "timeout": 200, "case_timeout": 5}}
 
 NAMES = ["a", "b", "c", "d", "e", "f"]
 BLOCKS = [1, 2, 3, 4, 7, 8, 16, 64]
@@ -61,12 +64,10 @@ class PlainFS:
     FAIL or EITHER (the property text does not say); effects are applied by `commit` callbacks so
     that an EITHER op can follow what the implementation did."""
 
-    def __init__(self, selfrename_deletes=False):
+    def __init__(self):
         self.root = Ino(True, ".")
         self.root.parent = self.root
         self.h = {}
-        self.selfrename_deletes = selfrename_deletes
-        self.selfrenames = 0
 
     # -- paths
     def resolve(self, path):
@@ -352,10 +353,7 @@ def judge(fs, op, res):
         if not got_ok:
             return "rename must succeed in the plain model but failed with " + res
         if ex is node:
-            fs.selfrenames += 1
-            if fs.selfrename_deletes:
-                del op_.kids[ob]
-            return None
+            return None   # renamed onto itself: nothing changes
         del op_.kids[ob]
         np_.kids[nb] = node
         node.name = nb
@@ -411,10 +409,10 @@ def judge(fs, op, res):
     return "unknown op " + kind
 
 
-def replay(case, impl, selfrename_deletes=False):
+def replay(case, impl):
     """-> (reason or None, PlainFS)"""
     f = case.split(" ")
-    fs = PlainFS(selfrename_deletes)
+    fs = PlainFS()
     if impl.startswith(("panic", "CRASH", "bad-op")):
         return "implementation " + impl[:200], fs
     loaded = fs.load(f[2])
@@ -436,18 +434,6 @@ def replay(case, impl, selfrename_deletes=False):
 def oracle(case, impl):
     why, _ = replay(case, impl)
     return why
-
-
-def finding_of(case, impl, why):
-    """F12: fileSystem.Rename of a file onto its own directory entry deletes the file. Matched only
-    when the history contains such a rename and the implementation's outputs are exactly those of a
-    plain filesystem whose self-rename deletes the entry (so any other deviation is still reported)."""
-    if not why:
-        return None
-    why2, fs2 = replay(case, impl, selfrename_deletes=True)
-    if why2 is None and fs2.selfrenames > 0:
-        return "F12"
-    return None
 
 
 def compare(case, impl, model):
@@ -683,13 +669,8 @@ def _gen_case(rng, tier, maxb=None, nops=None, selfrename=False):
         elif r < 0.88:
             src = _path(rng, fs, "any")
             dst = _path(rng, fs, rng.choice(["new", "any", "dir", "file"]))
-            if not selfrename:
-                # F12 (rename of a file onto itself deletes it) is a known finding: keep it out of
-                # the ordinary stream so that the other cases stay fully checked
-                a_, b_ = fs.split(unpath(src)), fs.split(unpath(dst))
-                if a_[0] is not None and a_[0] is b_[0] and (b_[1] or a_[1]) == a_[1] and a_[1] in a_[0].kids \
-                        and not a_[0].kids[a_[1]].is_dir:
-                    continue
+            if selfrename and rng.random() < 0.5:
+                dst = rng.choice([src, "./" + src, src + "/../" + src.split("/")[-1]]) if src != "@" else dst
             emit("rename,%s,%s" % (src, dst))
             sim(ops[-1])
         elif r < 0.91:
@@ -721,7 +702,7 @@ def generate(rng, tier):
     # smoke cases at the production block size (small data only)
     for _ in range(3 if tier == "quick" else 30):
         cases.append(_gen_case(rng, tier, maxb=PROD, nops=rng.randint(10, 60)))
-    # a few histories that are allowed to rename a file onto itself (known finding F12)
+    # a few histories with many renames of a path onto itself (finding F13, fixed by 100856b)
     for _ in range(3 if tier == "quick" else 40):
         cases.append(_gen_case(rng, tier, nops=rng.randint(10, 40), selfrename=True))
     return cases
